@@ -250,6 +250,8 @@ def solve(h, symtab, unwind_mangled, rundir):
         st = "UNWIND" if any("unwinding assertion" in f["desc"] for f in real_fail) else "FAIL"
     else:
         unsat = [c for c in parsed["covers"] if c["status"] != "SATISFIED"]
+        if h.get("info_covers"):
+            unsat = []  # rule-extraction harness: cover verdicts are data, not vacuity witnesses
         st = "VACUOUS" if unsat or (h.get("need_cover", True) and not parsed["covers"]) else "PASS"
     if st != "FAIL":
         try:
@@ -425,6 +427,7 @@ def run_property(pid, spec, tier, seed, only=None, jobs=0):
 
         # ---- other solver engines (z3 / cvc5 encodings)
         engine_results = []
+        engine_fail = []
         for eng in spec.get("engines", []):
             if only:
                 continue
@@ -432,7 +435,7 @@ def run_property(pid, spec, tier, seed, only=None, jobs=0):
             engine_results.append(er)
             log("  [%s] engine %-27s %-8s %6.1fs  queries=%d" % (pid, er["name"], er["status"], er["wall_s"], er["queries"]))
             if er["status"] == "FAIL":
-                violations.append({"harness": er["name"], "failed": er.get("failed", []), "replay": er.get("replay")})
+                engine_fail.append(er)
             elif er["status"] != "PASS":
                 inconclusive.append(er["name"])
 
@@ -515,6 +518,25 @@ def run_property(pid, spec, tier, seed, only=None, jobs=0):
                 log("INCONCLUSIVE %s: counterexample did not reproduce natively (see %s)" % (h["name"], rp))
         if pending_replay and not reproduced:
             inconclusive.append("%d failing harness(es), none reproduced natively" % len(pending_replay))
+        # a solver engine found a counterexample history: replay natively the node-local step(s) of the real code it relies on
+        for er in engine_fail:
+            done = False
+            for short in er.get("replay_of", []):
+                cand = [(h, st, parsed, logp) for h, st, parsed, logp, _ in results if h.get("short") == short and st == "FAIL"]
+                if not cand:
+                    continue
+                h, st, parsed, logp = cand[0]
+                pb = playback(h, overlays[h["profile"]], rundir, parsed=parsed, failed=parsed["failed"])
+                pb["history"] = er.get("history")
+                pb["engine"] = {k: v for k, v in er.items() if k not in ("history",)}
+                rp = save_replay(pid, dict(h, short=er["name"] + "+" + short), parsed["failed"], pb, logp)
+                if pb["reproduced"]:
+                    violations.append({"harness": er["name"], "failed": er.get("failed", []) + ["local step replayed natively: " + short], "replay": rp})
+                    done = True
+                    break
+            if not done:
+                log("INCONCLUSIVE %s: counterexample history found but no deviating local step could be replayed natively" % er["name"])
+                inconclusive.append(er["name"] + ":noreplay")
         for er in engine_results:
             queries += er["queries"]
             obligations += er.get("obligations", er["queries"])
@@ -580,8 +602,8 @@ def run_property(pid, spec, tier, seed, only=None, jobs=0):
 def save_replay(pid, h, failed, pb, logp):
     d = os.path.join(ROOT, "replays", pid)
     os.makedirs(d, exist_ok=True)
-    p = os.path.join(d, h["name"] + ".json")
-    json.dump({"property": pid, "harness": h, "failed_checks": failed, "witness": pb.get("witness"),
+    p = os.path.join(d, (h.get("short") or h["name"]).replace("/", "_") + ".json")
+    json.dump({"property": pid, "harness": h, "failed_checks": failed, "witness": pb.get("witness"), "history": pb.get("history"), "engine": pb.get("engine"),
                "reproduced_natively": pb.get("reproduced"), "native_command": pb.get("command"), "native_panic": pb.get("native_panic"),
                "native_output_tail": pb.get("native_tail"),
                "how": "cbmc --trace on the failed property -> values of every symbolic draw (vwit::W) -> overlay rebuilt in replay mode "
